@@ -434,7 +434,7 @@ def configs(tier):
             if L >= 2:
                 cf.append(dict(fn="randomize", A=A, L=L, B=B, n=n))
     ms_sets = [((1, 1), ("ohe", "ohe"), (1, 1)), ((2, 1), ("ohe", "str"), (1, 1)), ((1, 2, 1), ("ohe", "ohe", "ohe"), (1, 1, 1)),
-               ((1, 2, 1), ("str", "ohe", "ohe"), (1, 1, 1))]
+               ((1, 2, 1), ("str", "ohe", "ohe"), (1, 1, 1)), ((2,), ("ohe",), (1,)), ((1,), ("str",), (1,))]       # incl. a list of exactly one motif
     if tier == "thorough":
         ms_sets += [((2, 2), ("ohe", "ohe"), (2, 1)), ((1, 1, 1), ("str", "ohe", "str"), (1, 1, 1)), ((3, 2), ("ohe", "ohe"), (1, 1))]
     for A in (As if tier == "thorough" else (4,)):
